@@ -105,6 +105,7 @@ package topics
 //@   ensures[C06:wild-alone] err == nil && len(level) > 1 ==> forall(0, len(level), func(j int) bool { return level[j] != '#' && level[j] != '+' })
 //@   ensures[C06:mwc-last] err == nil && len(topic) > 0 && topic[0] == '#' ==> len(level) == len(topic) && len(rem) == 0
 //@   ensures[C06:dollar] len(topic) > 0 && topic[0] == '$' ==> err != nil
+//@   ensures[C06,known=KF-C06-1:empty-first-level] err == nil && len(topic) > 0 && topic[0] == '/' ==> len(level) == 0
 //@   ensures[C06:progress] err == nil && len(topic) > 0 ==> len(rem) < len(topic)
 //@   modifies nothing
 
@@ -230,6 +231,7 @@ package topics
 //@   loop 1 decreases len(sn.subs) - rangeindex
 //@   ensures[inv] vdefSNode(sn)
 //@   ensures[C06:leaf-ok] len(topic) == 0 ==> err == nil && sn.snodes == old(sn.snodes)
+//@   ensures[C06:invalid-no-effect] err != nil ==> preservedobjs(snode) && preservedentries(sn.snodes)
 //@   ensures[C06:replace] len(topic) == 0 && !forall(0, old(len(sn.subs)), func(i int) bool { return !ufb("equal", old(sn.subs[i]), sub) }) ==> sameslice(sn.subs, old(sn.subs)) && unchanged(sn.subs) && sameslice(sn.qos, old(sn.qos))
 //@        && forall(0, len(sn.qos), func(i int) bool { return sn.qos[i] == ite(ufb("equal", sn.subs[i], sub) && forall(0, i, func(j int) bool { return !ufb("equal", sn.subs[j], sub) }), qos, old(sn.qos[i])) })
 //@   ensures[C06:add] len(topic) == 0 && forall(0, old(len(sn.subs)), func(i int) bool { return !ufb("equal", old(sn.subs[i]), sub) }) ==> len(sn.subs) == old(len(sn.subs))+1 && len(sn.qos) == old(len(sn.qos))+1
@@ -254,6 +256,7 @@ package topics
 //@        && forall(0, len(sn.subs), func(i int) bool { return forall(0, i+1, func(j int) bool { return !ufb("equal", old(sn.subs[j]), sub) }) ==> sn.subs[i] == old(sn.subs[i]) && sn.qos[i] == old(sn.qos[i]) })
 //@        && forall(0, len(sn.subs), func(i int) bool { return !forall(0, i+1, func(j int) bool { return !ufb("equal", old(sn.subs[j]), sub) }) ==> sn.subs[i] == old(sn.subs[i+1]) && sn.qos[i] == old(sn.qos[i+1]) })
 //@   ensures[C06:leaf-map] len(topic) == 0 ==> sn.snodes == old(sn.snodes)
+//@   ensures[C06:failed-no-effect] err != nil ==> preservedobjs(snode) && preservedmaps(sn.snodes)
 //@   modifies allfields(snode), allmaps(map[string]*snode), allelems(interface{}), allelems(byte)
 
 // matchQos (C06): appends every entry of the node, in order, with QoS min(publish QoS, entry QoS).
@@ -348,6 +351,7 @@ package topics
 //@   ensures[C07:granted] err == nil ==> qos <= 2 && rqos == ite(qos > MaxQosAllowed, MaxQosAllowed, qos)
 //@   ensures[C07:rejected] err != nil ==> rqos == 128
 //@   ensures[C06:invalid-untouched] (qos > 2 || sub == nil) ==> err != nil && preservedobjs(snode) && preservedmaps(mt.sroot.snodes)
+//@   ensures[C06:invalid-no-effect] err != nil ==> preservedobjs(snode) && preservedentries(mt.sroot.snodes)
 //@   ensures[inv] vdefSNode(mt.sroot) && mt.sroot == old(mt.sroot)
 //@   modifies allfields(snode), allmaps(map[string]*snode), allelems(interface{}), allelems(byte), heap("GF.isnode")
 
